@@ -22,3 +22,49 @@ package messagesfactory
 //@   ensures result.content.SignedHeader().BlockHeight() == blockHeight && result.content.SignedHeader().View() == view && result.content.SignedHeader().BlockHash() == blockHash
 //@   ensures result.content.Sender().MemberId() == f.memberId
 //@   ensures VerifiedMsg(f.keyManager, blockHeight, result.content.SignedHeader().Raw(), f.memberId, result.content.Sender().Signature())
+
+// the proposal of a leader: the content builder and the message built from it describe one signed header
+// (A-MB-RT: BlockRefBytes is the canonical encoding of the five header fields; reading it back yields them)
+//@ pred HdrIs(hdr *protocol.BlockRef, b *protocol.BlockRefBuilder) = hdr.MessageType() == b.MessageType && hdr.InstanceId() == b.InstanceId
+//@   | && hdr.BlockHeight() == b.BlockHeight && hdr.View() == b.View && hdr.BlockHash() == b.BlockHash
+//@   | && content(hdr.Raw()) == BlockRefBytes(b.MessageType, b.InstanceId, b.BlockHeight, b.View, content(b.BlockHash))
+
+//@ func (*MessageFactory).CreatePreprepareMessageContentBuilder
+//@   trusted
+//@   ensures result != nil && result.SignedHeader != nil && result.Sender != nil
+//@   ensures result.SignedHeader.MessageType == protocol.LEAN_HELIX_PREPREPARE && result.SignedHeader.InstanceId == f.instanceId
+//@   ensures result.SignedHeader.BlockHeight == blockHeight && result.SignedHeader.View == view && result.SignedHeader.BlockHash == blockHash
+//@   ensures result.Sender.MemberId == f.memberId
+//@   ensures VerifiedMsg(f.keyManager, blockHeight, BlockRefBytes(protocol.LEAN_HELIX_PREPREPARE, f.instanceId, blockHeight, view, content(blockHash)), f.memberId, result.Sender.Signature)
+
+//@ func (*MessageFactory).CreatePreprepareMessageFromContentBuilder
+//@   trusted
+//@   requires ppmc != nil && ppmc.SignedHeader != nil && ppmc.Sender != nil
+//@   ensures result != nil && result.content != nil && result.block == block
+//@   ensures HdrIs(result.content.SignedHeader(), ppmc.SignedHeader)
+//@   ensures result.content.Sender().MemberId() == ppmc.Sender.MemberId && result.content.Sender().Signature() == ppmc.Sender.Signature
+
+//@ func (*MessageFactory).CreatePreprepareMessage
+//@   trusted
+//@   ensures result != nil && result.content != nil && result.block == block
+//@   ensures result.content.SignedHeader().MessageType() == protocol.LEAN_HELIX_PREPREPARE && result.content.SignedHeader().InstanceId() == f.instanceId
+//@   ensures result.content.SignedHeader().BlockHeight() == blockHeight && result.content.SignedHeader().View() == view && result.content.SignedHeader().BlockHash() == blockHash
+//@   ensures result.content.Sender().MemberId() == f.memberId
+//@   ensures VerifiedMsg(f.keyManager, blockHeight, result.content.SignedHeader().Raw(), f.memberId, result.content.Sender().Signature())
+
+//@ func (*MessageFactory).CreateNewViewMessage
+//@   trusted
+//@   ensures result != nil && result.content != nil && result.block == block
+//@   ensures result.content.SignedHeader().MessageType() == protocol.LEAN_HELIX_NEW_VIEW && result.content.SignedHeader().BlockHeight() == blockHeight && result.content.SignedHeader().View() == view
+//@   ensures result.content.Sender().MemberId() == f.memberId
+
+//@ func (*MessageFactory).CreateViewChangeMessage
+//@   trusted
+//@   ensures result != nil && result.content != nil
+//@   ensures result.content.SignedHeader().MessageType() == protocol.LEAN_HELIX_VIEW_CHANGE && result.content.SignedHeader().InstanceId() == f.instanceId
+//@   ensures result.content.SignedHeader().BlockHeight() == blockHeight && result.content.SignedHeader().View() == view
+//@   ensures result.content.Sender().MemberId() == f.memberId
+//@   ensures VerifiedMsg(f.keyManager, blockHeight, result.content.SignedHeader().Raw(), f.memberId, result.content.Sender().Signature())
+//@   ensures (preparedMessages == nil) == (result.content.SignedHeader().PreparedProof() == nil || len(result.content.SignedHeader().PreparedProof().Raw()) == 0)
+//@   ensures preparedMessages != nil && preparedMessages.PreprepareMessage != nil ==> result.block == preparedMessages.PreprepareMessage.block
+//@   ensures preparedMessages == nil ==> result.block == nil
